@@ -68,8 +68,9 @@ void ThreadPool::terminate()
     terminate_ = true;
     // wake up all worker threads and let them terminate.
     cv_jobs_.notify_all();
-    // notify LoopUntilTerminate in case all threads are idle.
-    cv_finished_.notify_one();
+    // notify all threads waiting in loop_until_terminate() or
+    // loop_until_empty(), in case all worker threads are idle.
+    cv_finished_.notify_all();
 }
 
 size_t ThreadPool::done() const
@@ -152,9 +153,11 @@ void ThreadPool::worker(size_t p)
             ++done_;
             --busy_;
 
-            // relock mutex before signaling condition.
+            // relock mutex before signaling condition. wake all waiters: more
+            // than one thread may be blocked in loop_until_empty() or
+            // loop_until_terminate(), and each has to re-check its predicate.
             lock.lock();
-            cv_finished_.notify_one();
+            cv_finished_.notify_all();
         }
     }
 }
